@@ -33,13 +33,18 @@ class SkipNode(GraphQLError):
 def _visit_method(method):
     @functools.wraps(method)
     def wrapper(inst, node):
+        cls = node.__class__
         try:
             node = inst.enter(node)
         except SkipNode:
             return node
 
         if node is not None:
-            node = method(inst, node)
+            if node.__class__ is cls:
+                node = method(inst, node)
+            else:
+                # A replacement of another kind is traversed as what it is.
+                node = inst._visit_replacement(node)
 
         if node is not None:
             inst.leave(node)
@@ -97,55 +102,62 @@ class ASTVisitor:
             and :meth:`leave` is encoded.
 
         """
-        return classdispatch(
-            node,
-            {
-                _ast.Document: self._visit_document,
-                _ast.OperationDefinition: self._visit_operation_definition,
-                _ast.VariableDefinition: self._visit_variable_definition,
-                _ast.Variable: self._visit_variable,
-                _ast.SelectionSet: self._visit_selection_set,
-                _ast.Field: self._visit_field,
-                _ast.Argument: self._visit_argument,
-                _ast.FragmentSpread: self._visit_fragment_spread,
-                _ast.InlineFragment: self._visit_inline_fragment,
-                _ast.FragmentDefinition: self._visit_fragment_definition,
-                _ast.IntValue: self._visit_value,
-                _ast.FloatValue: self._visit_value,
-                _ast.BooleanValue: self._visit_value,
-                _ast.NullValue: self._visit_value,
-                _ast.EnumValue: self._visit_value,
-                _ast.StringValue: self._visit_value,
-                _ast.ListValue: self._visit_value,
-                _ast.ObjectValue: self._visit_value,
-                _ast.ObjectField: self._visit_object_field,
-                _ast.Directive: self._visit_directive,
-                _ast.NonNullType: self._visit_type,
-                _ast.ListType: self._visit_type,
-                _ast.NamedType: self._visit_type,
-                _ast.SchemaDefinition: self._visit_schema_definition,
-                _ast.OperationTypeDefinition: self._visit_operation_type_definition,
-                _ast.ScalarTypeDefinition: self._visit_scalar_type_definition,
-                _ast.ObjectTypeDefinition: self._visit_object_type_definition,
-                _ast.FieldDefinition: self._visit_field_definition,
-                _ast.InputValueDefinition: self._visit_input_value_definition,
-                _ast.InterfaceTypeDefinition: self._visit_interface_type_definition,
-                _ast.UnionTypeDefinition: self._visit_union_type_definition,
-                _ast.EnumTypeDefinition: self._visit_enum_type_definition,
-                _ast.EnumValueDefinition: self._visit_enum_value_definition,
-                _ast.InputObjectTypeDefinition: (
-                    self._visit_input_object_type_definition
-                ),
-                _ast.SchemaExtension: self._visit_schema_definition,
-                _ast.ScalarTypeExtension: self._visit_scalar_type_definition,
-                _ast.ObjectTypeExtension: self._visit_object_type_definition,
-                _ast.InterfaceTypeExtension: self._visit_interface_type_definition,
-                _ast.UnionTypeExtension: self._visit_union_type_definition,
-                _ast.EnumTypeExtension: self._visit_enum_type_definition,
-                _ast.InputObjectTypeExtension: self._visit_input_object_type_definition,
-                _ast.DirectiveDefinition: self._visit_directive_definition,
-            },
-        )
+        return classdispatch(node, self._methods())
+
+    def _visit_replacement(self, node):
+        try:
+            impl = self._methods()[node.__class__]
+        except KeyError:
+            raise TypeError(node.__class__)
+        return impl.__wrapped__(self, node)
+
+    def _methods(self):
+        return {
+            _ast.Document: self._visit_document,
+            _ast.OperationDefinition: self._visit_operation_definition,
+            _ast.VariableDefinition: self._visit_variable_definition,
+            _ast.Variable: self._visit_variable,
+            _ast.SelectionSet: self._visit_selection_set,
+            _ast.Field: self._visit_field,
+            _ast.Argument: self._visit_argument,
+            _ast.FragmentSpread: self._visit_fragment_spread,
+            _ast.InlineFragment: self._visit_inline_fragment,
+            _ast.FragmentDefinition: self._visit_fragment_definition,
+            _ast.IntValue: self._visit_value,
+            _ast.FloatValue: self._visit_value,
+            _ast.BooleanValue: self._visit_value,
+            _ast.NullValue: self._visit_value,
+            _ast.EnumValue: self._visit_value,
+            _ast.StringValue: self._visit_value,
+            _ast.ListValue: self._visit_value,
+            _ast.ObjectValue: self._visit_value,
+            _ast.ObjectField: self._visit_object_field,
+            _ast.Directive: self._visit_directive,
+            _ast.NonNullType: self._visit_type,
+            _ast.ListType: self._visit_type,
+            _ast.NamedType: self._visit_type,
+            _ast.SchemaDefinition: self._visit_schema_definition,
+            _ast.OperationTypeDefinition: self._visit_operation_type_definition,
+            _ast.ScalarTypeDefinition: self._visit_scalar_type_definition,
+            _ast.ObjectTypeDefinition: self._visit_object_type_definition,
+            _ast.FieldDefinition: self._visit_field_definition,
+            _ast.InputValueDefinition: self._visit_input_value_definition,
+            _ast.InterfaceTypeDefinition: self._visit_interface_type_definition,
+            _ast.UnionTypeDefinition: self._visit_union_type_definition,
+            _ast.EnumTypeDefinition: self._visit_enum_type_definition,
+            _ast.EnumValueDefinition: self._visit_enum_value_definition,
+            _ast.InputObjectTypeDefinition: (
+                self._visit_input_object_type_definition
+            ),
+            _ast.SchemaExtension: self._visit_schema_definition,
+            _ast.ScalarTypeExtension: self._visit_scalar_type_definition,
+            _ast.ObjectTypeExtension: self._visit_object_type_definition,
+            _ast.InterfaceTypeExtension: self._visit_interface_type_definition,
+            _ast.UnionTypeExtension: self._visit_union_type_definition,
+            _ast.EnumTypeExtension: self._visit_enum_type_definition,
+            _ast.InputObjectTypeExtension: self._visit_input_object_type_definition,
+            _ast.DirectiveDefinition: self._visit_directive_definition,
+        }
 
     @_visit_method
     def _visit_document(self, document: _ast.Document) -> _ast.Document:
